@@ -281,7 +281,10 @@ theorem startLoop_inv2 (c : Crypto G) (env : Env) (hb : env.bindsHash = true) (s
     unfold startLoop
     have hu := update_inv2 c env hb sh gs hl st m h
     simp only []
-    split; · exact hu
+    split
+    · split
+      · exact ih _ hu
+      · exact hu
     split; · exact hu
     exact ih _ hu
 
@@ -296,10 +299,15 @@ theorem startLoop_fields (c : Crypto G) (env : Env) (ms : List (VMsg G)) :
     have hf := update_fields c env st m
     unfold startLoop
     simp only []
-    split; · exact ⟨hf.1, hf.2.1, hf.2.2.1, hf.2.2.2.1⟩
-    split; · exact ⟨hf.1, hf.2.1, hf.2.2.1, hf.2.2.2.1⟩
     have := ih (update c env st m).st
-    exact ⟨this.1.trans hf.1, this.2.1.trans hf.2.1, this.2.2.1.trans hf.2.2.1, this.2.2.2.trans hf.2.2.2.1⟩
+    have hgo := (⟨this.1.trans hf.1, this.2.1.trans hf.2.1, this.2.2.1.trans hf.2.2.1, this.2.2.2.trans hf.2.2.2.1⟩ :
+      _ ∧ _ ∧ _ ∧ _)
+    split
+    · split
+      · exact hgo
+      · exact ⟨hf.1, hf.2.1, hf.2.2.1, hf.2.2.2.1⟩
+    split; · exact ⟨hf.1, hf.2.1, hf.2.2.1, hf.2.2.2.1⟩
+    exact hgo
 
 theorem startLoop_err_false (c : Crypto G) (env : Env) (hex : env.blockExists = false) (ms : List (VMsg G)) :
     ∀ st : RState G, (startLoop c env st ms).2.1 = false := by
@@ -309,7 +317,10 @@ theorem startLoop_err_false (c : Crypto G) (env : Env) (hex : env.blockExists = 
     intro st
     unfold startLoop
     simp only []
-    split; · rfl
+    split
+    · split
+      · exact ih _
+      · rfl
     split
     · rename_i h; rw [update_err_false c env st m hex] at h; exact absurd h (by decide)
     · exact ih _
